@@ -516,3 +516,28 @@ package fun
 //@   requires opts != nil && opts.ErrorHandler != nil && cancel != nil
 //@   ensures goes: mayContinue(opts, err) ==> result == nil && calls(cancel) == old(calls(cancel))
 //@   ensures aborts: !mayContinue(opts, err) ==> result == io_EOF && calls(cancel) > old(calls(cancel))
+
+// Map (Transform.ProcessParallel): when a worker's processor answers io.EOF
+// ("may not continue", or the output is gone) the group's context is cancelled
+// before the answer reaches ReadAll.
+//@ func (Transform).ProcessParallel$1$1
+//@   props C03
+//@   option noframe
+//@   modifies calls(wcancel)
+//@   requires wcancel != nil
+//@   ensures result == err
+//@   ensures aborts: errIs(err, io_EOF) ==> calls(wcancel) > old(calls(wcancel))
+//@   ensures goes: !errIs(err, io_EOF) ==> calls(wcancel) == old(calls(wcancel))
+
+// GenerateParallel: the per-call generator wrapper. A value passes through; a
+// failure after which the worker may continue becomes a skip; otherwise the
+// wrapper answers io.EOF and cancels the group's context.
+//@ func (Producer).GenerateParallel$1$1
+//@   props C03
+//@   option noframe
+//@   option ghost any
+//@   requires pf != nil && opts != nil && opts.ErrorHandler != nil && cancel != nil && ctx != nil
+//@   ensures calls(pf) == old(calls(pf)) + 1
+//@   ensures value: callret1(pf, calls(pf) - 1) == nil ==> result1 == nil && result0 == callret0(pf, calls(pf) - 1) && calls(cancel) == old(calls(cancel))
+//@   ensures skips: callret1(pf, calls(pf) - 1) != nil && mayContinue(opts, callret1(pf, calls(pf) - 1)) ==> result1 == ErrIteratorSkip && calls(cancel) == old(calls(cancel))
+//@   ensures aborts: callret1(pf, calls(pf) - 1) != nil && !mayContinue(opts, callret1(pf, calls(pf) - 1)) ==> result1 == io_EOF && calls(cancel) > old(calls(cancel))
